@@ -142,6 +142,12 @@ def run(rep, wd, tier, seed):
     from .isocheck import _pool
     outs = _pool(_drive, [(seed, p) for p in core.split(list(range(n)), core.NCPU)])
     traces = [t for o in outs for t in o]
+    from . import isocheck
+    touts = isocheck.mark_threaded(isocheck.threaded('harness.c14', '_drive', [(seed, list(range(50000 + 8 * k, 50000 + 8 * k + 8))) for k in range(8)], procs=2))
+    for o in touts:
+        for t in o:
+            t['tid'] = len(traces)
+            traces.append(t)
     # second decimalisation scan: 0, 1, 2 digits by search at run time (cheap), 3 and 4 from the committed corpus
     ev = []
     found = {}
